@@ -3,6 +3,7 @@ package main
 import (
 	"go/token"
 	"go/types"
+	"sort"
 	"strings"
 
 	"golang.org/x/tools/go/ssa"
@@ -348,6 +349,11 @@ func checkC19(e *Engine, r *Report) {
 		r.Check(okAm, "typed data › Amino path hands on the whole sign doc", e.Pos(am.Pos()), "WrapTxToTypedData(chainID, signDocBytes)", "the Amino path renders something other than the complete sign-doc bytes")
 	})
 
+	r.Rule("R6", "NARROWING", "the EIP-712 rendering of the custom-precompile messages is injective in its numeric fields: the uint256 amount and the domain chain id enter the typed data as the full big integer — never through Int64()/Uint64() (values that differ by a multiple of 2^64 would hash alike: one signature authorises another amount / another chain)", 1, func() {
+		probs, n := typedDataNarrowing(e)
+		r.Check(len(probs) == 0 && n >= 2, "x/cpc typed data › big integers enter unnarrowed", "", itoa(n)+" typed-data builders inspected", "a numeric field of the signed typed data is narrowed to 64 bits: "+strings.Join(probs, "; "))
+	})
+
 	r.Rule("R5", "WHO-MAY-READ", "key encodings round-trip: a private key is turned into bytes or text only by the fixed-width encoder crypto.FromECDSA (32 bytes, left-padded) — repository code never reads the scalar D of an ecdsa.PrivateKey itself (big.Int.Bytes/Text and fmt verbs drop leading zero bytes: about one key in 256 would export as 31 bytes and fail to import)", 0, func() {
 		n := 0
 		for _, f := range e.SrcFuncs(e.RepoOwned) {
@@ -454,4 +460,30 @@ func reachesWithout(v, target ssa.Value, barrier func(ssa.Value) bool) bool {
 		return false
 	}
 	return walk(v)
+}
+
+// typedDataNarrowing (shared by C19-R6 and C11-R8): in the typed-data builders of the custom precompiles (every ToTypedData method
+// of x/cpc/abi and x/cpc/eip712.GetDomain) no big integer is narrowed with Int64()/Uint64().
+func typedDataNarrowing(e *Engine) (problems []string, inspected int) {
+	var fns []*ssa.Function
+	for _, f := range e.SrcFuncs(func(p string) bool { return p == EV+"/x/cpc/abi" || p == pkgCpcEip }) {
+		if f.Parent() == nil && (f.Name() == "ToTypedData" || f.Name() == "GetDomain") && !IsGenerated(e.File(f.Pos())) {
+			fns = append(fns, f)
+		}
+	}
+	for _, f := range fns {
+		inspected++
+		for _, c := range callsIn(f, true, func(c ssa.CallInstruction) bool {
+			fo := calleeObj(c)
+			if fo == nil || fo.Pkg() == nil {
+				return false
+			}
+			p := fo.Pkg().Path()
+			return (p == pkgBig || p == pkgSdkMath) && (fo.Name() == "Int64" || fo.Name() == "Uint64")
+		}) {
+			problems = append(problems, fnKey(f)+" calls "+calleeObj(c).Name()+"() at "+e.Pos(c.Pos()))
+		}
+	}
+	sort.Strings(problems)
+	return
 }
